@@ -195,6 +195,14 @@ def case_dmrg(ctx, i):
     if force_conv:
         opts['max_sweeps'] = int(rng.integers(8, 16))
         opts['mixer_params']['amplitude'] = float(rng.choice([1e-2, 1e-3]))
+    elif mixer is not None and rng.random() < 0.25:
+        # a run that ends while the mixer is on, with a binding chi_max: what a mixer returns when it truncates goes into the result
+        opts['mixer_params']['disable_after'] = 30
+        if untruncated:
+            untruncated = False
+            chi_max = int(rng.integers(2, 5))
+            opts['trunc_params']['chi_max'] = chi_max
+        ctx.count('mixer_kept_on_until_the_end')
     if diag in ('default', 'lanczos') and rng.random() < 0.4:
         # documented eigensolver option: the reported energies are those of H, not of the shifted operator
         opts['lanczos_params'] = {'E_shift': float(rng.choice([-4., -1.5, 2.5, -20.]))}
@@ -289,7 +297,7 @@ def case_dmrg(ctx, i):
         if late:
             # (recorded finding; keyed by what is off and by the mixer class, so that other combinations still count)
             what_off = 'not-normalised' if not (abs(nrm - 1) <= 1e-8) else 'not-canonical'
-            ctx.violation('DMRG%s:returned-state-%s:%s' % (late, what_off, mixer_class[0]), '%s: |psi| = %r, norm_test %r' % (tag, nrm, nt), case)
+            ctx.violation('DMRG%s:returned-state-%s:%s:%s' % (late, what_off, engine, mixer_class[0]), '%s: |psi| = %r, norm_test %r' % (tag, nrm, nt), case)
         else:
             ctx.violation('DMRG:returned-state-not-normalised-or-not-canonical', '%s: |psi| = %r, norm_test %r' % (tag, nrm, nt), case)
         if not (abs(nrm - 1) <= 1e-2):
